@@ -429,8 +429,8 @@ Proof.
   { induction l as [|i l IH]; intros s0; simpl; [auto|]. destruct (IH (add_pending s0 now i)) as [A B]. rewrite A, B.
     unfold add_pending. destruct (mem i (s_pending s0)); auto. }
   destruct (G2 (dedup unres) (fold_left mark_resolved (dedup res)
-             (mkSt (s_cache s) (s_q s) (s_pending s) rset (s_retrans s)))) as [A B].
-  destruct (G1 (dedup res) (mkSt (s_cache s) (s_q s) (s_pending s) rset (s_retrans s))) as [C D].
+             (mkSt (s_cache s) (s_q s) (s_pending s) (fold_left (fun l i => set_remove i l) (map snd rem) rset) (s_retrans s)))) as [A B].
+  destruct (G1 (dedup res) (mkSt (s_cache s) (s_q s) (s_pending s) (fold_left (fun l i => set_remove i l) (map snd rem) rset) (s_retrans s))) as [C D].
   rewrite A, B, C, D. auto.
 Qed.
 
